@@ -22,7 +22,25 @@ def chk_region(inp):
     return None
 
 
-CHECKS = {'region': chk_region}
+def chk_region_history(inp):
+    """the region of an object that has answered other queries (phosphorylation, cached searches, profiles) is still the region of its sequence"""
+    p, n, N, seed = inp
+    rng = random.Random(seed)
+    z = N - p - n
+    neutral = ''.join(rng.choice('STYGAQ') for _ in range(z))
+    s = list('K' * p + 'E' * n + neutral)
+    rng.shuffle(s)
+    s = ''.join(s)
+    o = sp(s)
+    disturb(o, s, rng)
+    r = outcome(o.get_phasePlotRegion)
+    exp = region_ref(p, n, N)
+    if r != ('ok', exp):
+        return 'get_phasePlotRegion of %s after other queries on the same object -> %r, thresholds give %r' % (s, r, exp)
+    return None
+
+
+CHECKS = {'region': chk_region, 'region_history': chk_region_history}
 
 
 def work(Ns, seed):
@@ -33,6 +51,10 @@ def work(Ns, seed):
             for n in range(N + 1 - p):
                 inps.append((p, n, N, seed + N))
     run_checks(r, 'region', chk_region, inps)
+    rng = random.Random(seed)
+    hist = [i for i in inps if 2 <= i[2] <= 30 and i[2] - i[0] - i[1] >= 1]
+    rng.shuffle(hist)
+    run_checks(r, 'region_history', chk_region_history, hist[:40])
     return r
 
 
